@@ -399,6 +399,21 @@ def np_int_cell(cell, c, x):
   return (c1, c2), c1 + 2 * c2
 
 
+FLAG_MODES = ('ctor', 'call', 'both', 'disagree')
+
+
+def _flag_split(mode, name, value):
+  """(constructor kwargs, call kwargs) so that the RESOLVED value of the flag is `value`: given to the constructor
+  only, at call time only (constructor default), to both, or at call time over a disagreeing constructor value"""
+  if mode == 'ctor':
+    return {name: value}, {}
+  if mode == 'call':
+    return {}, {name: value}
+  if mode == 'both':
+    return {name: value}, {name: value}
+  return {name: not value}, {name: value}
+
+
 def gen_intrnn_cases(rng, thorough):
   cases = []
   n = 80 if not thorough else 6000
@@ -408,9 +423,26 @@ def gen_intrnn_cases(rng, thorough):
   pal2 += [(rng.randrange(2, 6), [rng.randrange(1, 3), rng.randrange(2, 4)], 1) for _ in range(0 if not thorough else 8)]
   if not any(T >= 4 for T, _, _ in palette):
     palette[0] = (rng.randrange(4, 7), palette[0][1], palette[0][2])
+  tq = rng.randrange(2, 5)
+  square = (tq, [tq], 1)  # B == T: a wrong leading axis is silent here
+  if palette[0][1][0] == palette[0][0]:  # and one shape with B != T for sure
+    palette[0] = (palette[0][0] + 1, palette[0][1], palette[0][2])
   for i in range(n):
-    bidir = rng.random() < 0.2
+    bidir = rng.random() < 0.15
     T, bshape, F = rng.choice(pal2) if i % 4 == 3 else rng.choice(palette)
+    tm_mode, rc_mode, tm_forced = rng.choice(FLAG_MODES), rng.choice(FLAG_MODES), None
+    if i % 4 == 1:
+      # structured sub-stream: where the flags come from (constructor, call, both, call overriding a DISAGREEING
+      # constructor value in both directions) x {RNN, Bidirectional} x {Linen, NNX}, with B == T and B != T
+      k = i // 4
+      bidir = k % 2 == 0
+      stage = (k // 4) % 5
+      tm_mode = ('disagree', 'disagree', 'call', 'both', 'ctor')[stage]
+      tm_forced = {0: True, 1: False}.get(stage)
+      if stage == 0:
+        T, bshape, F = square
+      elif stage == 1:
+        T, bshape, F = palette[0]
     bshape = list(bshape)
     nbat = int(np.prod(bshape))
     two = len(bshape) == 2
@@ -422,9 +454,13 @@ def gen_intrnn_cases(rng, thorough):
     if rng.random() < 0.4:
       c0 = [np.array([rng.randrange(0, 40) for _ in range(nbat * F)]).reshape(bshape + [F]).tolist() for _ in range(2)]
     case = {
-      'kind': 'int-bidir' if bidir else 'int-rnn', 'api': rng.choice(APIS), 'cell': [rng.randrange(1, 6), rng.randrange(1, 6), rng.choice([97, 101, 64])],
+      'kind': 'int-bidir' if bidir else 'int-rnn', 'api': APIS[(i // 8) % 2] if i % 4 == 1 else rng.choice(APIS),
+      'cell': [rng.randrange(1, 6), rng.randrange(1, 6), rng.choice([97, 101, 64])],
       'x': x, 'lens': lens, 'c0': c0, 'time_major': rng.random() < (0.5 if two else 0.35), 'return_carry': rng.random() < 0.7,
+      'tm_mode': tm_mode, 'rc_mode': rc_mode,
     }
+    if tm_forced is not None:
+      case['time_major'] = tm_forced
     if bidir:
       case['cellb'] = [rng.randrange(1, 6), rng.randrange(1, 6), rng.choice([97, 101])]
       case['c0b'] = None if c0 is None else [np.array([rng.randrange(0, 40) for _ in range(nbat * F)]).reshape(bshape + [F]).tolist() for _ in range(2)]
@@ -471,27 +507,34 @@ def check_intrnn(ctx, batch, cases):
         kw['initial_carry'] = (c0, c0b)
       else:
         kw['initial_carry'] = c0
+    # where the flags come from; the call-time value wins (older corpus cases: constructor, or `flags_in_call`)
+    tm_mode = case.get('tm_mode', 'call' if case.get('flags_in_call') else 'ctor')
+    rc_mode = case.get('rc_mode', 'call' if case.get('flags_in_call') else 'ctor')
+    ck_tm, kk_tm = _flag_split(tm_mode, 'time_major', tm)
+    ck_rc, kk_rc = _flag_split(rc_mode, 'return_carry', rc)
+    ckw = {**ck_tm, **ck_rc}
+    kw.update(kk_tm)
+    kw.update(kk_rc)
     if bidir:
-      if api == 'linen':
-        layer = nn.Bidirectional(_mk_rnn(api, case['cell']), _mk_rnn(api, case['cellb']), time_major=tm, return_carry=rc)
-      else:
-        layer = nnx.Bidirectional(_mk_rnn(api, case['cell']), _mk_rnn(api, case['cellb']), time_major=tm, return_carry=rc)
+      mk = nn.Bidirectional if api == 'linen' else nnx.Bidirectional
+      layer = mk(_mk_rnn(api, case['cell']), _mk_rnn(api, case['cellb']), **ckw)
       rev = keep = None
     else:
       rev, keep = case['reverse'], case['keep_order']
       if case['flags_in_call']:
-        layer = _mk_rnn(api, case['cell'])
-        kw.update(time_major=tm, return_carry=rc, reverse=rev, keep_order=keep)
+        kw.update(reverse=rev, keep_order=keep)
       else:
-        layer = _mk_rnn(api, case['cell'], time_major=tm, return_carry=rc, reverse=rev, keep_order=keep)
+        ckw.update(reverse=rev, keep_order=keep)
+      layer = _mk_rnn(api, case['cell'], **ckw)
     with jax.disable_jit():
       r = call(_run_rnn, api, layer, jnp.asarray(xin), **kw)
     padded = lens is not None and bool((lens < T).any())
     ctx.case(case, nontrivial=T >= 2)
     ctx.count('int_rnn', f"{api}{'-bidir' if bidir else ''}{'-tm' if tm else ''}{'-rev' if rev else ''}{'-keep' if keep else ''}{'-carry' if rc else ''}{'-padded' if padded else ''}-nb{nb}")
+    ctx.count('flag_source', f"{api}-{'bidir' if bidir else 'rnn'}-tm={tm_mode}{'->' + str(tm)[0] if tm_mode == 'disagree' else ''}-{'B=T' if nb == 1 and bshape[0] == T else 'B!=T'}")
     if r[0] != 'ok':
       key = 'rnn-raises' + ('-multi-batch-seq-lengths-carry' if nb > 1 and lens is not None and (rc or bidir) else '')
-      ctx.violation(key, f'RNN raised {r[1]} on batch shape {bshape}, T={T}, lens={case["lens"]}, flags tm={tm} rev={rev} keep={keep} return_carry={rc}', case)
+      ctx.violation(key, f'{api} {"Bidirectional" if bidir else "RNN"} raised {r[1]} on batch shape {bshape}, T={T}, lens={case["lens"]}, resolved flags time_major={tm} (given: {tm_mode}) rev={rev} keep={keep} return_carry={rc} (given: {rc_mode})', case)
       continue
     if rc:
       carry, out = r[1]
@@ -558,7 +601,7 @@ def check_intrnn(ctx, batch, cases):
       key = 'rnn-bidir-wrong' if bidir else 'rnn-not-loop'
       if nb > 1 and lens is not None and rc:
         key += '-multi-batch-seq-lengths-carry'
-      ctx.violation(key, f'{api} {"Bidirectional" if bidir else "RNN"} (tm={tm} rev={rev} keep={keep} lens={case["lens"]}): ' + '; '.join(problems[:3]), case)
+      ctx.violation(key, f'{api} {"Bidirectional" if bidir else "RNN"} (time_major={tm} given as {tm_mode}, return_carry given as {rc_mode}, rev={rev} keep={keep} lens={case["lens"]}): ' + '; '.join(problems[:3]), case)
       continue
 
     # ---- model
